@@ -30,8 +30,8 @@ import (
 	"github.com/theparanoids/ysshra/verifh"
 )
 
-func hx(s string) string { return hex.EncodeToString([]byte(s)) }
-func unhx(s string) string {
+func zvrhx(s string) string { return hex.EncodeToString([]byte(s)) }
+func zvrunhx(s string) string {
 	b, err := hex.DecodeString(s)
 	if err != nil {
 		panic("verif: bad hex in plan: " + s)
@@ -42,7 +42,7 @@ func unhx(s string) string {
 // ---------------------------------------------------------------------------------------------
 // lexical abstraction (see the header of ReqParam.tla)
 
-type vAtom struct {
+type zvrvAtom struct {
 	T    string `json:"t"`
 	H    string `json:"h"`
 	Vc   string `json:"vc"`
@@ -52,21 +52,21 @@ type vAtom struct {
 	Num  string `json:"num"`
 }
 
-type vVer struct {
+type zvrvVer struct {
 	Cls string `json:"cls"`
 	Maj int    `json:"maj"`
 	Min int    `json:"min"`
 }
 
-var vVerRE = regexp.MustCompile(`^[0-9]+\.[0-9]+$`)
+var zvrvVerRE = regexp.MustCompile(`^[0-9]+\.[0-9]+$`)
 
 // verClass reads a declared client version: "ab" (major.minor, both <= 65535), "big", "malformed", "missing".
-func verClass(s string) vVer {
+func zvrverClass(s string) zvrvVer {
 	if s == "" {
-		return vVer{Cls: "missing"}
+		return zvrvVer{Cls: "missing"}
 	}
-	if !vVerRE.MatchString(s) {
-		return vVer{Cls: "malformed"}
+	if !zvrvVerRE.MatchString(s) {
+		return zvrvVer{Cls: "malformed"}
 	}
 	i := strings.IndexByte(s, '.')
 	comp := func(d string) (int, bool) {
@@ -83,17 +83,17 @@ func verClass(s string) vVer {
 	ma, ok1 := comp(s[:i])
 	mi, ok2 := comp(s[i+1:])
 	if !ok1 || !ok2 {
-		return vVer{Cls: "big"}
+		return zvrvVer{Cls: "big"}
 	}
-	return vVer{Cls: "ab", Maj: ma, Min: mi}
+	return zvrvVer{Cls: "ab", Maj: ma, Min: mi}
 }
 
-func mkAtom(t, s string) vAtom {
-	a := vAtom{T: t, H: hx(s), Vc: "malformed", B: "other"}
+func zvrmkAtom(t, s string) zvrvAtom {
+	a := zvrvAtom{T: t, H: zvrhx(s), Vc: "malformed", B: "other"}
 	if t != "txt" {
 		return a
 	}
-	v := verClass(s)
+	v := zvrverClass(s)
 	a.Vc, a.Vmaj, a.Vmin = v.Cls, v.Maj, v.Min
 	if s == "true" || s == "false" {
 		a.B = s
@@ -104,8 +104,8 @@ func mkAtom(t, s string) vAtom {
 	return a
 }
 
-func atomize(s string) []vAtom {
-	out := make([]vAtom, 0, 8)
+func zvratomize(s string) []zvrvAtom {
+	out := make([]zvrvAtom, 0, 8)
 	kind := func(r rune) string {
 		switch {
 		case r == ' ':
@@ -124,7 +124,7 @@ func atomize(s string) []vAtom {
 		r, w := utf8.DecodeRuneInString(s[i:])
 		k := kind(r)
 		if cur != "" && (k != cur || k == "eq" || k == "at") {
-			out = append(out, mkAtom(cur, s[start:i]))
+			out = append(out, zvrmkAtom(cur, s[start:i]))
 			start = i
 		}
 		if cur == "" {
@@ -134,18 +134,18 @@ func atomize(s string) []vAtom {
 		i += w
 	}
 	if cur != "" {
-		out = append(out, mkAtom(cur, s[start:]))
+		out = append(out, zvrmkAtom(cur, s[start:]))
 	}
 	return out
 }
 
 // mirror of the JSON wire format (independent of message.Attributes)
-type mirrorTS struct {
+type zvrmirrorTS struct {
 	IsFirefighter bool   `json:"isFirefighter,omitempty"`
 	Hosts         string `json:"hosts,omitempty"`
 	Time          int64  `json:"time,omitempty"`
 }
-type mirrorAttrs struct {
+type zvrmirrorAttrs struct {
 	IfVer            int                    `json:"ifVer"`
 	Username         string                 `json:"username"`
 	Hostname         string                 `json:"hostname"`
@@ -154,12 +154,12 @@ type mirrorAttrs struct {
 	SignatureAlgo    int                    `json:"signatureAlgo,omitempty"`
 	HardKey          bool                   `json:"hardKey"`
 	Touch2SSH        bool                   `json:"touch2SSH,omitempty"`
-	TouchlessSudo    *mirrorTS              `json:"touchlessSudo,omitempty"`
+	TouchlessSudo    *zvrmirrorTS           `json:"touchlessSudo,omitempty"`
 	Exts             map[string]interface{} `json:"exts,omitempty"`
 }
 
 // jsonKind: how a text reads as JSON (object / null / array / number / string / bool / invalid).
-func jsonKind(text string) string {
+func zvrjsonKind(text string) string {
 	if !json.Valid([]byte(text)) {
 		return "invalid"
 	}
@@ -179,32 +179,32 @@ func jsonKind(text string) string {
 	return "number"
 }
 
-type vExt struct {
+type zvrvExt struct {
 	K string `json:"k"`
 	V string `json:"v"`
 }
 
 // vAttr is the attribute-set record of the specification.
-type vAttr struct {
-	IfVer   int    `json:"ifVer"`
-	Ver     string `json:"ver"`
-	User    string `json:"user"`
-	Host    string `json:"host"`
-	Ca      string `json:"ca"`
-	Sig     string `json:"sig"`
-	HardKey bool   `json:"hardKey"`
-	Touch   bool   `json:"touch"`
-	Tsp     bool   `json:"tsp"`
-	Ff      bool   `json:"ff"`
-	Hosts   string `json:"hosts"`
-	Time    string `json:"time"`
-	Exts    []vExt `json:"exts"`
+type zvrvAttr struct {
+	IfVer   int       `json:"ifVer"`
+	Ver     string    `json:"ver"`
+	User    string    `json:"user"`
+	Host    string    `json:"host"`
+	Ca      string    `json:"ca"`
+	Sig     string    `json:"sig"`
+	HardKey bool      `json:"hardKey"`
+	Touch   bool      `json:"touch"`
+	Tsp     bool      `json:"tsp"`
+	Ff      bool      `json:"ff"`
+	Hosts   string    `json:"hosts"`
+	Time    string    `json:"time"`
+	Exts    []zvrvExt `json:"exts"`
 }
 
-func zeroAttr() vAttr { return vAttr{Ca: "0", Sig: "0", Time: "0", Exts: []vExt{}} }
+func zvrzeroAttr() zvrvAttr { return zvrvAttr{Ca: "0", Sig: "0", Time: "0", Exts: []zvrvExt{}} }
 
 // canon renders an extension value as canonical typed text; numbers by numeric value.
-func canon(v interface{}) string {
+func zvrcanon(v interface{}) string {
 	switch x := v.(type) {
 	case nil:
 		return "z"
@@ -217,11 +217,11 @@ func canon(v interface{}) string {
 	case int64:
 		return "n:" + strconv.FormatFloat(float64(x), 'g', -1, 64)
 	case string:
-		return "s:" + hx(x)
+		return "s:" + zvrhx(x)
 	case []interface{}:
 		p := make([]string, len(x))
 		for i, e := range x {
-			p[i] = canon(e)
+			p[i] = zvrcanon(e)
 		}
 		return "l:[" + strings.Join(p, ",") + "]"
 	case map[string]interface{}:
@@ -232,74 +232,74 @@ func canon(v interface{}) string {
 		sort.Strings(ks)
 		p := make([]string, len(ks))
 		for i, k := range ks {
-			p[i] = hx(k) + ":" + canon(x[k])
+			p[i] = zvrhx(k) + ":" + zvrcanon(x[k])
 		}
 		return "m:{" + strings.Join(p, ",") + "}"
 	}
 	return fmt.Sprintf("?%T", v)
 }
 
-func canonExts(m map[string]interface{}) []vExt {
-	out := make([]vExt, 0, len(m))
+func zvrcanonExts(m map[string]interface{}) []zvrvExt {
+	out := make([]zvrvExt, 0, len(m))
 	for k, v := range m {
-		out = append(out, vExt{K: hx(k), V: canon(v)})
+		out = append(out, zvrvExt{K: zvrhx(k), V: zvrcanon(v)})
 	}
 	sort.Slice(out, func(i, j int) bool { return out[i].K < out[j].K })
 	return out
 }
 
-const tlcIntMax = 1 << 30
+const zvrtlcIntMax = 1 << 30
 
-func fitsTLC(n int) bool { return n > -tlcIntMax && n < tlcIntMax }
+func zvrfitsTLC(n int) bool { return n > -zvrtlcIntMax && n < zvrtlcIntMax }
 
-func attrOfMessage(a *message.Attributes) vAttr {
+func zvrattrOfMessage(a *message.Attributes) zvrvAttr {
 	if a == nil {
-		return zeroAttr()
+		return zvrzeroAttr()
 	}
-	r := vAttr{IfVer: a.IfVer, Ver: hx(a.SSHClientVersion), User: hx(a.Username), Host: hx(a.Hostname),
+	r := zvrvAttr{IfVer: a.IfVer, Ver: zvrhx(a.SSHClientVersion), User: zvrhx(a.Username), Host: zvrhx(a.Hostname),
 		Ca: strconv.Itoa(int(a.CAPubKeyAlgo)), Sig: strconv.Itoa(int(a.SignatureAlgo)), HardKey: a.HardKey, Touch: a.Touch2SSH,
-		Time: "0", Exts: canonExts(a.Exts)}
+		Time: "0", Exts: zvrcanonExts(a.Exts)}
 	if a.TouchlessSudo != nil {
-		r.Tsp, r.Ff, r.Hosts, r.Time = true, a.TouchlessSudo.IsFirefighter, hx(a.TouchlessSudo.Hosts), strconv.FormatInt(a.TouchlessSudo.Time, 10)
+		r.Tsp, r.Ff, r.Hosts, r.Time = true, a.TouchlessSudo.IsFirefighter, zvrhx(a.TouchlessSudo.Hosts), strconv.FormatInt(a.TouchlessSudo.Time, 10)
 	}
 	return r
 }
 
-func attrOfMirror(a *mirrorAttrs) vAttr {
-	r := vAttr{IfVer: a.IfVer, Ver: hx(a.SSHClientVersion), User: hx(a.Username), Host: hx(a.Hostname),
+func zvrattrOfMirror(a *zvrmirrorAttrs) zvrvAttr {
+	r := zvrvAttr{IfVer: a.IfVer, Ver: zvrhx(a.SSHClientVersion), User: zvrhx(a.Username), Host: zvrhx(a.Hostname),
 		Ca: strconv.Itoa(a.CAPubKeyAlgo), Sig: strconv.Itoa(a.SignatureAlgo), HardKey: a.HardKey, Touch: a.Touch2SSH,
-		Time: "0", Exts: canonExts(a.Exts)}
+		Time: "0", Exts: zvrcanonExts(a.Exts)}
 	if a.TouchlessSudo != nil {
-		r.Tsp, r.Ff, r.Hosts, r.Time = true, a.TouchlessSudo.IsFirefighter, hx(a.TouchlessSudo.Hosts), strconv.FormatInt(a.TouchlessSudo.Time, 10)
+		r.Tsp, r.Ff, r.Hosts, r.Time = true, a.TouchlessSudo.IsFirefighter, zvrhx(a.TouchlessSudo.Hosts), strconv.FormatInt(a.TouchlessSudo.Time, 10)
 	}
 	return r
 }
 
 // vCmd is the abstraction of a command text for C14; vCmd15 the one for C15 (full attribute object).
-type vCmd struct {
-	Jk    string  `json:"jk"`
-	Dec   bool    `json:"dec"`
-	Jver  vVer    `json:"jver"`
-	Juser string  `json:"juser"`
-	Jhost string  `json:"jhost"`
-	Atoms []vAtom `json:"atoms"`
+type zvrvCmd struct {
+	Jk    string     `json:"jk"`
+	Dec   bool       `json:"dec"`
+	Jver  zvrvVer    `json:"jver"`
+	Juser string     `json:"juser"`
+	Jhost string     `json:"jhost"`
+	Atoms []zvrvAtom `json:"atoms"`
 }
-type vCmd15 struct {
-	Jk    string  `json:"jk"`
-	Dec   bool    `json:"dec"`
-	Ja    vAttr   `json:"ja"`
-	Atoms []vAtom `json:"atoms"`
+type zvrvCmd15 struct {
+	Jk    string     `json:"jk"`
+	Dec   bool       `json:"dec"`
+	Ja    zvrvAttr   `json:"ja"`
+	Atoms []zvrvAtom `json:"atoms"`
 }
 
-func lexCmd(text string) (vCmd, vCmd15) {
-	c := vCmd{Jk: jsonKind(text), Jver: vVer{Cls: "missing"}, Atoms: atomize(text)}
-	c15 := vCmd15{Jk: c.Jk, Ja: zeroAttr(), Atoms: c.Atoms}
+func zvrlexCmd(text string) (zvrvCmd, zvrvCmd15) {
+	c := zvrvCmd{Jk: zvrjsonKind(text), Jver: zvrvVer{Cls: "missing"}, Atoms: zvratomize(text)}
+	c15 := zvrvCmd15{Jk: c.Jk, Ja: zvrzeroAttr(), Atoms: c.Atoms}
 	if c.Jk == "object" {
-		var m mirrorAttrs
+		var m zvrmirrorAttrs
 		if err := json.Unmarshal([]byte(text), &m); err == nil {
 			c.Dec, c15.Dec = true, true
-			c.Jver, c.Juser, c.Jhost = verClass(m.SSHClientVersion), hx(m.Username), hx(m.Hostname)
-			c15.Ja = attrOfMirror(&m)
+			c.Jver, c.Juser, c.Jhost = zvrverClass(m.SSHClientVersion), zvrhx(m.Username), zvrhx(m.Hostname)
+			c15.Ja = zvrattrOfMirror(&m)
 		}
 	}
 	return c, c15
@@ -308,22 +308,27 @@ func lexCmd(text string) (vCmd, vCmd15) {
 // ---------------------------------------------------------------------------------------------
 // C14: csr.NewReqParam
 
-type vConn struct {
+type zvrvConn struct {
 	First  string `json:"first"`
 	Ipc    string `json:"ipc"`
 	Strict bool   `json:"strict"`
+	// the same under the other reading of "field": delimited by any run of white space
+	Firstf  string `json:"firstf"`
+	Strictf bool   `json:"strictf"`
 }
 
 // ipStrictValid: independent validator of "a textual IPv4 / IPv6 address without zone"
-func ipStrictValid(s string) bool {
+func zvripStrictValid(s string) bool {
 	a, err := netip.ParseAddr(s)
 	return err == nil && a.Zone() == ""
 }
-type vArgv struct {
+
+type zvrvArgv struct {
 	Toks  []string `json:"toks"`
 	Clean bool     `json:"clean"`
+	Ftoks []string `json:"ftoks"`
 }
-type vRes14 struct {
+type zvrvRes14 struct {
 	Ok      bool   `json:"ok"`
 	Pan     bool   `json:"pan"`
 	Logname string `json:"logname"`
@@ -336,16 +341,16 @@ type vRes14 struct {
 	ReqHost string `json:"reqhost"`
 	Tidc    []int  `json:"tidc"`
 }
-type vEv14 struct {
-	Op   string `json:"op"`
-	Cmd  vCmd   `json:"cmd"`
-	Log  string `json:"log"`
-	Conn vConn  `json:"conn"`
-	Argv vArgv  `json:"argv"`
-	Xok  string `json:"xok"`
-	Res  vRes14 `json:"res"`
+type zvrvEv14 struct {
+	Op   string    `json:"op"`
+	Cmd  zvrvCmd   `json:"cmd"`
+	Log  string    `json:"log"`
+	Conn zvrvConn  `json:"conn"`
+	Argv zvrvArgv  `json:"argv"`
+	Xok  string    `json:"xok"`
+	Res  zvrvRes14 `json:"res"`
 }
-type vIn14 struct {
+type zvrvIn14 struct {
 	Cmd  string   `json:"cmd"` // hex
 	Log  string   `json:"log"`
 	Conn string   `json:"conn"`
@@ -354,18 +359,18 @@ type vIn14 struct {
 	Xok  string   `json:"xok"`
 	Cls  string   `json:"cls"`
 }
-type vRec struct {
+type zvrvRec struct {
 	Ev   string      `json:"ev"`
 	Tid  string      `json:"tid"`
 	E    interface{} `json:"e,omitempty"`
 	Info interface{} `json:"info,omitempty"`
 }
 
-type vRun struct {
+type zvrvRun struct {
 	tr       *verifh.Trace
 	n        int
 	tids     []string
-	okIn     []vRec // successful reqparam records (for a small replay file of a batch violation)
+	okIn     []zvrvRec // successful reqparam records (for a small replay file of a batch violation)
 	pan      int
 	ok14     int
 	calls14  int
@@ -373,12 +378,12 @@ type vRun struct {
 	errtexts map[string]int
 }
 
-func (r *vRun) emit(prefix string, e, info interface{}) {
+func (r *zvrvRun) emit(prefix string, e, info interface{}) {
 	r.n++
-	r.tr.Emit(vRec{Ev: "step", Tid: fmt.Sprintf("%s%d", prefix, r.n), E: e, Info: info})
+	r.tr.Emit(zvrvRec{Ev: "step", Tid: fmt.Sprintf("%s%d", prefix, r.n), E: e, Info: info})
 }
 
-func callReqParam(cmd, logname, conn string, argv []string) (res vRes14, tid string, errtext string) {
+func zvrcallReqParam(cmd, logname, conn string, argv []string) (res zvrvRes14, tid string, errtext string) {
 	res.Tidc = []int{}
 	env := func(k string) string {
 		switch k {
@@ -393,7 +398,7 @@ func callReqParam(cmd, logname, conn string, argv []string) (res vRes14, tid str
 	}
 	defer func() {
 		if x := recover(); x != nil {
-			res = vRes14{Pan: true, Tidc: []int{}}
+			res = zvrvRes14{Pan: true, Tidc: []int{}}
 			errtext = fmt.Sprint(x)
 		}
 	}()
@@ -407,8 +412,8 @@ func callReqParam(cmd, logname, conn string, argv []string) (res vRes14, tid str
 		return res, "", "nil,nil"
 	}
 	res.Ok = true
-	res.Logname, res.IP, res.Pol, res.Handler = hx(p.LogName), hx(p.ClientIP), hx(string(p.NamespacePolicy)), hx(p.HandlerName)
-	res.ReqUser, res.ReqHost = hx(p.ReqUser), hx(p.ReqHost)
+	res.Logname, res.IP, res.Pol, res.Handler = zvrhx(p.LogName), zvrhx(p.ClientIP), zvrhx(string(p.NamespacePolicy)), zvrhx(p.HandlerName)
+	res.ReqUser, res.ReqHost = zvrhx(p.ReqUser), zvrhx(p.ReqHost)
 	v := p.SSHClientVersion.Marshal()
 	res.Vmaj, res.Vmin = -1, -1
 	if i := strings.IndexByte(v, '.'); i > 0 {
@@ -426,33 +431,40 @@ func callReqParam(cmd, logname, conn string, argv []string) (res vRes14, tid str
 }
 
 // mk14 runs one call and builds its event (no shared state: usable from several goroutines)
-func mk14(in vIn14) (ev vEv14, tid, errtext string) {
-	cmd, logname, conn := unhx(in.Cmd), unhx(in.Log), unhx(in.Conn)
+func zvrmk14(in zvrvIn14) (ev zvrvEv14, tid, errtext string) {
+	cmd, logname, conn := zvrunhx(in.Cmd), zvrunhx(in.Log), zvrunhx(in.Conn)
 	argv := make([]string, len(in.Argv))
-	toks := make([]string, 0, 8)
+	toks, ftoks := make([]string, 0, 8), make([]string, 0, 8)
 	clean := true
 	for i, a := range in.Argv {
-		argv[i] = unhx(a)
+		argv[i] = zvrunhx(a)
 		for _, t := range strings.Split(argv[i], " ") {
-			toks = append(toks, hx(t))
+			toks = append(toks, zvrhx(t))
 			if t == "" {
 				clean = false
 			}
+		}
+		for _, t := range strings.Fields(argv[i]) {
+			ftoks = append(ftoks, zvrhx(t))
 		}
 	}
 	var argvIn []string
 	if len(argv) > 0 {
 		argvIn = argv
 	}
-	c, _ := lexCmd(cmd)
-	first := strings.SplitN(conn, " ", 2)[0]
-	ev = vEv14{Op: "reqparam", Cmd: c, Log: hx(logname), Conn: vConn{First: hx(first), Ipc: in.Ipc, Strict: ipStrictValid(first)},
-		Argv: vArgv{Toks: toks, Clean: clean}, Xok: in.Xok}
-	ev.Res, tid, errtext = callReqParam(cmd, logname, conn, argvIn)
+	c, _ := zvrlexCmd(cmd)
+	first, firstf := strings.SplitN(conn, " ", 2)[0], ""
+	if f := strings.Fields(conn); len(f) > 0 {
+		firstf = f[0]
+	}
+	ev = zvrvEv14{Op: "reqparam", Cmd: c, Log: zvrhx(logname),
+		Conn: zvrvConn{First: zvrhx(first), Ipc: in.Ipc, Strict: zvripStrictValid(first), Firstf: zvrhx(firstf), Strictf: zvripStrictValid(firstf)},
+		Argv: zvrvArgv{Toks: toks, Clean: clean, Ftoks: ftoks}, Xok: in.Xok}
+	ev.Res, tid, errtext = zvrcallReqParam(cmd, logname, conn, argvIn)
 	return ev, tid, errtext
 }
 
-func (r *vRun) add14(in vIn14, ev vEv14, tid, errtext string) {
+func (r *zvrvRun) add14(in zvrvIn14, ev zvrvEv14, tid, errtext string) {
 	r.calls14++
 	r.classes[in.Cls+"/"+ev.Cmd.Jk+"/"+strconv.FormatBool(ev.Res.Ok)]++
 	if ev.Res.Pan {
@@ -460,7 +472,7 @@ func (r *vRun) add14(in vIn14, ev vEv14, tid, errtext string) {
 		r.errtexts[errtext]++
 	}
 	r.n++
-	rec := vRec{Ev: "step", Tid: fmt.Sprintf("p%d", r.n), E: ev, Info: in}
+	rec := zvrvRec{Ev: "step", Tid: fmt.Sprintf("p%d", r.n), E: ev, Info: in}
 	r.tr.Emit(rec)
 	if ev.Res.Ok {
 		r.ok14++
@@ -471,23 +483,23 @@ func (r *vRun) add14(in vIn14, ev vEv14, tid, errtext string) {
 	}
 }
 
-func (r *vRun) do14(in vIn14) {
-	ev, tid, errtext := mk14(in)
+func (r *zvrvRun) do14(in zvrvIn14) {
+	ev, tid, errtext := zvrmk14(in)
 	r.add14(in, ev, tid, errtext)
 }
 
 // conc14: g goroutines call NewReqParam at the same time, each with its own inputs; every call is an event
-func (r *vRun) conc14(rnd *mrand.Rand, g, rounds int) {
-	ins := make([][]vIn14, g)
+func (r *zvrvRun) conc14(rnd *mrand.Rand, g, rounds int) {
+	ins := make([][]zvrvIn14, g)
 	for i := range ins {
-		ins[i] = make([]vIn14, rounds)
+		ins[i] = make([]zvrvIn14, rounds)
 		for j := range ins[i] {
-			ins[i][j] = randIn14(rnd)
+			ins[i][j] = zvrrandIn14(rnd)
 			ins[i][j].Cls = "conc:" + ins[i][j].Cls[2:]
 		}
 	}
 	type out struct {
-		ev      vEv14
+		ev      zvrvEv14
 		tid, et string
 	}
 	outs := make([][]out, g)
@@ -500,7 +512,7 @@ func (r *vRun) conc14(rnd *mrand.Rand, g, rounds int) {
 			defer wg.Done()
 			<-start
 			for j, in := range ins[i] {
-				ev, tid, et := mk14(in)
+				ev, tid, et := zvrmk14(in)
 				outs[i][j] = out{ev, tid, et}
 			}
 		}(i)
@@ -514,17 +526,17 @@ func (r *vRun) conc14(rnd *mrand.Rand, g, rounds int) {
 	}
 }
 
-type vBatch struct {
+type zvrvBatch struct {
 	Op     string   `json:"op"`
 	N      int      `json:"n"`
 	Sorted []string `json:"sorted"`
 	Cols   [][]int  `json:"cols"`
 }
 
-func (r *vRun) batch() {
+func (r *zvrvRun) batch() {
 	s := make([]string, len(r.tids))
 	for i, t := range r.tids {
-		s[i] = hx(t)
+		s[i] = zvrhx(t)
 	}
 	sort.Strings(s)
 	cols := make([][]int, 10)
@@ -543,12 +555,12 @@ func (r *vRun) batch() {
 	for _, x := range r.okIn {
 		first = append(first, x.Info)
 	}
-	r.emit("b", vBatch{Op: "tidbatch", N: len(r.tids), Sorted: s, Cols: cols}, map[string]interface{}{"calls": first})
+	r.emit("b", zvrvBatch{Op: "tidbatch", N: len(r.tids), Sorted: s, Cols: cols}, map[string]interface{}{"calls": first})
 }
 
 // --- concretisation of the exported C14 classes
 
-type vCase14 struct {
+type zvrvCase14 struct {
 	Cmd  string `json:"cmd"`
 	Ver  string `json:"ver"`
 	Log  string `json:"log"`
@@ -561,32 +573,32 @@ type vCase14 struct {
 }
 
 var (
-	poolNames   = []string{"alice", "bob_7", "svc-acct", "x", "J.Doe", "user=1", "zoë", "用户", "a.b-c_d", "root", "ADMIN", "u+tag", "o'neil", "q\"uote", "back\\slash"}
-	poolHosts   = []string{"host1", "laptop.example.com", "h", "10.1.2.3", "my-mac.local", "ホスト", "H=1", "x.y.z", "[::1]", "h\"q"}
-	poolBadVer  = []string{"x", "8", "8.", ".5", "a.b", "-1.2", "1.-2", "8,0", "v8.0", "8.0p1x", "..", "8 .0"}
-	poolBigVer  = []string{"65536.0", "1.65536", "70000.1", "99999999999999999999.1", "3.4294967296", "100000.100000"}
-	poolV6      = []string{"2001:db8::7", "::1", "fe80::1", "::ffff:192.0.2.1", "2001:0db8:0000:0000:0000:0000:0000:0001", "::", "2001:DB8::A"}
-	poolNotIP   = []string{"gateway.example", "1.2.3", "1.2.3.4.5", "300.1.1.1", "::g", "1.2.3.4:22", "localhost", "1.2.3.", "-1.2.3.4", "12345", "2001:db8:::1", "UNKNOWN"}
-	poolV6Zone  = []string{"fe80::1%eth0", "fe80::1%en0", "fe80::abcd%1", "::1%lo", "fe80::1%eth0.100"}
-	poolZoneBad = []string{"fe80::1%,Principals=root", "fe80::1%\"quoted\"", "fe80::1%a=b,c", "fe80::1%%", "fe80::1%\x00", "fe80::1%", "fe80::1%'$(id)'", "::1%\n", "fe80::1%é",
+	zvrpoolNames   = []string{"alice", "bob_7", "svc-acct", "x", "J.Doe", "user=1", "zoë", "用户", "a.b-c_d", "root", "ADMIN", "u+tag", "o'neil", "q\"uote", "back\\slash"}
+	zvrpoolHosts   = []string{"host1", "laptop.example.com", "h", "10.1.2.3", "my-mac.local", "ホスト", "H=1", "x.y.z", "[::1]", "h\"q"}
+	zvrpoolBadVer  = []string{"x", "8", "8.", ".5", "a.b", "-1.2", "1.-2", "8,0", "v8.0", "8.0p1x", "..", "8 .0"}
+	zvrpoolBigVer  = []string{"65536.0", "1.65536", "70000.1", "99999999999999999999.1", "3.4294967296", "100000.100000"}
+	zvrpoolV6      = []string{"2001:db8::7", "::1", "fe80::1", "::ffff:192.0.2.1", "2001:0db8:0000:0000:0000:0000:0000:0001", "::", "2001:DB8::A"}
+	zvrpoolNotIP   = []string{"gateway.example", "1.2.3", "1.2.3.4.5", "300.1.1.1", "::g", "1.2.3.4:22", "localhost", "1.2.3.", "-1.2.3.4", "12345", "2001:db8:::1", "UNKNOWN"}
+	zvrpoolV6Zone  = []string{"fe80::1%eth0", "fe80::1%en0", "fe80::abcd%1", "::1%lo", "fe80::1%eth0.100"}
+	zvrpoolZoneBad = []string{"fe80::1%,Principals=root", "fe80::1%\"quoted\"", "fe80::1%a=b,c", "fe80::1%%", "fe80::1%\x00", "fe80::1%", "fe80::1%'$(id)'", "::1%\n", "fe80::1%é",
 		"fe80::1%" + strings.Repeat("A", 3000), "2001:db8::7%,critical-options=x"}
-	poolV4Zone  = []string{"1.2.3.4%x", "10.0.0.1%eth0", "1.2.3.4%", "::ffff:1.2.3.4%eth0"}
-	poolIPJunk  = []string{"x1.2.3.4", "1.2.3.4x", "1.2.3.4,", "::1;", "1.2.3.4\t", "\t1.2.3.4", "1.2.3.4/32", "::1/128", "1.2.3.4\x00", "1.2.3.4,5.6.7.8", "0x1.2.3.4", "1.2.3.4.", "::1::"}
-	poolBracket = []string{"[::1]", "[2001:db8::1]", "[1.2.3.4]", "[::1"}
-	poolPort    = []string{"1.2.3.4:22", "[::1]:22", "1.2.3.4:", ":22"}
-	poolMapped  = []string{"::ffff:1.2.3.4", "::ffff:192.0.2.1", "::ffff:c000:201", "0:0:0:0:0:ffff:10.0.0.1"}
-	poolFill    = []string{"gensign", "-c", "/usr/bin/gensign", "--flag", "a", "b", "c", "d", "e", "NSOK", "NONS", "x=y", "ü"}
-	poolBadPol  = []string{"XXXX", "nsok", "NONSX", "NS0K", "-", "NSOK,NONS", "nons"}
-	poolHandler = []string{"handler", "Regular", "smartcard", "h-1", "x", "NONS1", "ü"}
+	zvrpoolV4Zone  = []string{"1.2.3.4%x", "10.0.0.1%eth0", "1.2.3.4%", "::ffff:1.2.3.4%eth0"}
+	zvrpoolIPJunk  = []string{"x1.2.3.4", "1.2.3.4x", "1.2.3.4,", "::1;", "1.2.3.4\t", "\t1.2.3.4", "1.2.3.4/32", "::1/128", "1.2.3.4\x00", "1.2.3.4,5.6.7.8", "0x1.2.3.4", "1.2.3.4.", "::1::"}
+	zvrpoolBracket = []string{"[::1]", "[2001:db8::1]", "[1.2.3.4]", "[::1"}
+	zvrpoolPort    = []string{"1.2.3.4:22", "[::1]:22", "1.2.3.4:", ":22"}
+	zvrpoolMapped  = []string{"::ffff:1.2.3.4", "::ffff:192.0.2.1", "::ffff:c000:201", "0:0:0:0:0:ffff:10.0.0.1"}
+	zvrpoolFill    = []string{"gensign", "-c", "/usr/bin/gensign", "--flag", "a", "b", "c", "d", "e", "NSOK", "NONS", "x=y", "ü"}
+	zvrpoolBadPol  = []string{"XXXX", "nsok", "NONSX", "NS0K", "-", "NSOK,NONS", "nons"}
+	zvrpoolHandler = []string{"handler", "Regular", "smartcard", "h-1", "x", "NONS1", "ü"}
 )
 
-func pick(r *mrand.Rand, p []string) string { return p[r.Intn(len(p))] }
+func zvrpick(r *mrand.Rand, p []string) string { return p[r.Intn(len(p))] }
 
-func randV4(r *mrand.Rand) string {
+func zvrrandV4(r *mrand.Rand) string {
 	return fmt.Sprintf("%d.%d.%d.%d", r.Intn(256), r.Intn(256), r.Intn(256), r.Intn(256))
 }
 
-func randVerAB(r *mrand.Rand) string {
+func zvrrandVerAB(r *mrand.Rand) string {
 	c := func() string {
 		switch r.Intn(6) {
 		case 0:
@@ -601,20 +613,20 @@ func randVerAB(r *mrand.Rand) string {
 	return c() + "." + c()
 }
 
-func concreteVer(r *mrand.Rand, cls string) string {
+func zvrconcreteVer(r *mrand.Rand, cls string) string {
 	switch cls {
 	case "ab":
-		return randVerAB(r)
+		return zvrrandVerAB(r)
 	case "malformed":
-		return pick(r, poolBadVer)
+		return zvrpick(r, zvrpoolBadVer)
 	case "big":
-		return pick(r, poolBigVer)
+		return zvrpick(r, zvrpoolBigVer)
 	}
 	return ""
 }
 
 // legacyClean strips what the legacy format cannot carry (white space, '@')
-func legacyClean(s string) string {
+func zvrlegacyClean(s string) string {
 	var b strings.Builder
 	for _, c := range s {
 		if !unicode.IsSpace(c) && c != '@' {
@@ -627,9 +639,9 @@ func legacyClean(s string) string {
 	return b.String()
 }
 
-func spaces(r *mrand.Rand) string { return strings.Repeat(" ", 1+r.Intn(3)/2) }
+func zvrspaces(r *mrand.Rand) string { return strings.Repeat(" ", 1+r.Intn(3)/2) }
 
-func mustJSON(v interface{}) string {
+func zvrmustJSON(v interface{}) string {
 	b, err := json.Marshal(v)
 	if err != nil {
 		panic(err)
@@ -637,19 +649,19 @@ func mustJSON(v interface{}) string {
 	return string(b)
 }
 
-func concrete14(r *mrand.Rand, c vCase14, xok string) vIn14 {
-	logname := pick(r, poolNames)
+func zvrconcrete14(r *mrand.Rand, c zvrvCase14, xok string) zvrvIn14 {
+	logname := zvrpick(r, zvrpoolNames)
 	user := logname
 	if c.User != "alice" {
 		for user == logname {
-			user = pick(r, poolNames)
+			user = zvrpick(r, zvrpoolNames)
 		}
 	}
-	host := pick(r, poolHosts)
+	host := zvrpick(r, zvrpoolHosts)
 	if c.Host != "host1" {
 		host = "other-" + host
 	}
-	ver := concreteVer(r, c.Ver)
+	ver := zvrconcreteVer(r, c.Ver)
 	var cmd string
 	jobj := func(dropKey string, extra bool) string {
 		m := map[string]interface{}{"ifVer": 7, "username": user, "hostname": host, "sshClientVersion": ver, "hardKey": r.Intn(2) == 0}
@@ -667,9 +679,9 @@ func concrete14(r *mrand.Rand, c vCase14, xok string) vIn14 {
 			m["exts"] = map[string]interface{}{"k": "v w", "n": 1.5}
 			m["unknownKey"] = []interface{}{1, "req=" + logname + "@evil"}
 		}
-		return mustJSON(m)
+		return zvrmustJSON(m)
 	}
-	luser, lhost := legacyClean(user), legacyClean(host)
+	luser, lhost := zvrlegacyClean(user), zvrlegacyClean(host)
 	leg := func(req string) string {
 		parts := []string{"IFVer=6"}
 		if ver != "" {
@@ -689,7 +701,7 @@ func concrete14(r *mrand.Rand, c vCase14, xok string) vIn14 {
 		}
 		s := parts[0]
 		for _, p := range parts[1:] {
-			s += spaces(r) + p
+			s += zvrspaces(r) + p
 		}
 		if r.Intn(5) == 0 {
 			s = " " + s + " "
@@ -704,96 +716,96 @@ func concrete14(r *mrand.Rand, c vCase14, xok string) vIn14 {
 	case "json_nohost":
 		cmd = jobj("hostname", false)
 	case "json_null":
-		cmd = pick(r, []string{"null", " null", "null ", "\tnull\n"})
+		cmd = zvrpick(r, []string{"null", " null", "null ", "\tnull\n"})
 	case "json_array":
-		cmd = pick(r, []string{"[]", "[1,2]", `[{"username":"a"}]`, `["req=a@b"]`})
+		cmd = zvrpick(r, []string{"[]", "[1,2]", `[{"username":"a"}]`, `["req=a@b"]`})
 	case "json_number":
-		cmd = pick(r, []string{"7", "-1.5e3", "0", "1e400"})
+		cmd = zvrpick(r, []string{"7", "-1.5e3", "0", "1e400"})
 	case "json_string":
-		cmd = pick(r, []string{`"x"`, `""`, `"req=a@b"`, `"null"`})
+		cmd = zvrpick(r, []string{`"x"`, `""`, `"req=a@b"`, `"null"`})
 	case "json_bool":
-		cmd = pick(r, []string{"true", "false"})
+		cmd = zvrpick(r, []string{"true", "false"})
 	case "json_strleg":
-		cmd = `"x` + spaces(r) + "req=" + luser + "@" + lhost + spaces(r) + `y"`
+		cmd = `"x` + zvrspaces(r) + "req=" + luser + "@" + lhost + zvrspaces(r) + `y"`
 		user, host = luser, lhost
 	case "json_badtype":
-		cmd = pick(r, []string{
-			mustJSON(map[string]interface{}{"ifVer": 7, "username": 5, "hostname": host, "sshClientVersion": "8.1"}),
-			mustJSON(map[string]interface{}{"ifVer": "7", "username": user, "hostname": host, "sshClientVersion": "8.1"}),
-			mustJSON(map[string]interface{}{"ifVer": 7, "username": user, "hostname": host, "sshClientVersion": "8.1", "exts": []int{1}}),
-			mustJSON(map[string]interface{}{"ifVer": 1e30, "username": user, "hostname": host, "sshClientVersion": "8.1"})})
+		cmd = zvrpick(r, []string{
+			zvrmustJSON(map[string]interface{}{"ifVer": 7, "username": 5, "hostname": host, "sshClientVersion": "8.1"}),
+			zvrmustJSON(map[string]interface{}{"ifVer": "7", "username": user, "hostname": host, "sshClientVersion": "8.1"}),
+			zvrmustJSON(map[string]interface{}{"ifVer": 7, "username": user, "hostname": host, "sshClientVersion": "8.1", "exts": []int{1}}),
+			zvrmustJSON(map[string]interface{}{"ifVer": 1e30, "username": user, "hostname": host, "sshClientVersion": "8.1"})})
 	case "leg_ver", "leg_nover":
 		cmd = leg("req=" + luser + "@" + lhost)
 	case "leg_noreq":
-		cmd = leg(pick(r, []string{"", "Req=" + luser + "@" + lhost, "requester=" + luser + "@" + lhost}))
+		cmd = leg(zvrpick(r, []string{"", "Req=" + luser + "@" + lhost, "requester=" + luser + "@" + lhost}))
 	case "leg_req0at":
-		cmd = leg(pick(r, []string{"req=" + luser, "req", "req="}))
+		cmd = leg(zvrpick(r, []string{"req=" + luser, "req", "req="}))
 	case "leg_req2at":
-		cmd = leg(pick(r, []string{"req=" + luser + "@" + lhost + "@x", "req=@@", "req=" + luser + "@@" + lhost}))
+		cmd = leg(zvrpick(r, []string{"req=" + luser + "@" + lhost + "@x", "req=@@", "req=" + luser + "@@" + lhost}))
 	case "empty":
-		cmd = pick(r, []string{"", "", " ", "   "})
+		cmd = zvrpick(r, []string{"", "", " ", "   "})
 	default:
-		cmd = pick(r, []string{"\xff{\x00", "{", "}{", "{\"username\":", "\x00", "=@=", "@", "=", "nul", "NULL", "{'username':'a'}", "\xc3\x28 \xa0\xa1", "req", "IFVer=7"})
+		cmd = zvrpick(r, []string{"\xff{\x00", "{", "}{", "{\"username\":", "\x00", "=@=", "@", "=", "nul", "NULL", "{'username':'a'}", "\xc3\x28 \xa0\xa1", "req", "IFVer=7"})
 	}
 	var conn, ipc string
-	rest := fmt.Sprintf(" %d %s %d", 1024+r.Intn(60000), randV4(r), 22)
+	rest := fmt.Sprintf(" %d %s %d", 1024+r.Intn(60000), zvrrandV4(r), 22)
 	if r.Intn(6) == 0 {
 		rest = ""
 	}
 	switch c.Conn {
 	case "v4":
-		conn, ipc = randV4(r)+rest, "v4"
+		conn, ipc = zvrrandV4(r)+rest, "v4"
 	case "v6":
-		conn, ipc = pick(r, poolV6)+rest, "v6"
+		conn, ipc = zvrpick(r, zvrpoolV6)+rest, "v6"
 	case "notip":
-		conn, ipc = pick(r, poolNotIP)+rest, "notip"
+		conn, ipc = zvrpick(r, zvrpoolNotIP)+rest, "notip"
 	case "empty":
 		conn, ipc = "", "notip"
 	case "v4v4":
-		conn, ipc = randV4(r)+" "+randV4(r)+" 22", "v4"
+		conn, ipc = zvrrandV4(r)+" "+zvrrandV4(r)+" 22", "v4"
 	case "v6zone":
-		conn, ipc = pick(r, poolV6Zone)+rest, "notip"
+		conn, ipc = zvrpick(r, zvrpoolV6Zone)+rest, "notip"
 	case "v6zonejunk":
-		conn, ipc = pick(r, poolZoneBad)+rest, "notip"
+		conn, ipc = zvrpick(r, zvrpoolZoneBad)+rest, "notip"
 	case "v4zone":
-		conn, ipc = pick(r, poolV4Zone)+rest, "notip"
+		conn, ipc = zvrpick(r, zvrpoolV4Zone)+rest, "notip"
 	case "ipjunk":
-		conn, ipc = pick(r, poolIPJunk)+rest, "notip"
+		conn, ipc = zvrpick(r, zvrpoolIPJunk)+rest, "notip"
 	case "bracket":
-		conn, ipc = pick(r, poolBracket)+rest, "notip"
+		conn, ipc = zvrpick(r, zvrpoolBracket)+rest, "notip"
 	case "withport":
-		conn, ipc = pick(r, poolPort)+rest, "notip"
+		conn, ipc = zvrpick(r, zvrpoolPort)+rest, "notip"
 	case "mapped":
-		conn, ipc = pick(r, poolMapped)+rest, "v6"
+		conn, ipc = zvrpick(r, zvrpoolMapped)+rest, "v6"
 	default:
-		conn, ipc = pick(r, poolNotIP)+" "+randV4(r)+" 22", "notip"
+		conn, ipc = zvrpick(r, zvrpoolNotIP)+" "+zvrrandV4(r)+" 22", "notip"
 	}
 	toks := make([]string, c.Ntok)
 	for i := range toks {
 		switch {
 		case i == c.Ntok-1:
-			toks[i] = pick(r, poolHandler)
+			toks[i] = zvrpick(r, zvrpoolHandler)
 			if c.Hnd == "NSOK" {
 				toks[i] = "NSOK"
 			}
 		case i == c.Ntok-2:
 			toks[i] = c.Pol
 			if c.Pol == "other" {
-				toks[i] = pick(r, poolBadPol)
+				toks[i] = zvrpick(r, zvrpoolBadPol)
 			}
 		default:
-			toks[i] = pick(r, poolFill)
+			toks[i] = zvrpick(r, zvrpoolFill)
 		}
 	}
-	in := vIn14{Cmd: hx(cmd), Conn: hx(conn), Ipc: ipc, Xok: xok, Cls: c.Cmd, Argv: groupArgs(r, toks)}
+	in := zvrvIn14{Cmd: zvrhx(cmd), Conn: zvrhx(conn), Ipc: ipc, Xok: xok, Cls: c.Cmd, Argv: zvrgroupArgs(r, toks)}
 	if c.Log == "set" {
-		in.Log = hx(logname)
+		in.Log = zvrhx(logname)
 	}
 	return in
 }
 
 // groupArgs spreads tokens over at most 8 arguments (tokens of one argument joined by single spaces)
-func groupArgs(r *mrand.Rand, toks []string) []string {
+func zvrgroupArgs(r *mrand.Rand, toks []string) []string {
 	args := []string{}
 	for i := 0; i < len(toks); {
 		n := 1 + r.Intn(3)
@@ -801,7 +813,7 @@ func groupArgs(r *mrand.Rand, toks []string) []string {
 		if left == 0 || i+n > len(toks) {
 			n = len(toks) - i
 		}
-		args = append(args, hx(strings.Join(toks[i:i+n], " ")))
+		args = append(args, zvrhx(strings.Join(toks[i:i+n], " ")))
 		i += n
 	}
 	return args
@@ -809,7 +821,7 @@ func groupArgs(r *mrand.Rand, toks []string) []string {
 
 // --- direction B for C14: free inputs
 
-func randBytes(r *mrand.Rand, n int) string {
+func zvrrandBytes(r *mrand.Rand, n int) string {
 	b := make([]byte, n)
 	for i := range b {
 		b[i] = byte(r.Intn(256))
@@ -817,27 +829,27 @@ func randBytes(r *mrand.Rand, n int) string {
 	return string(b)
 }
 
-var hostileStrings = []string{"", " ", "\x00", "a\x00b", "\xff\xfe", "null", "true", "{}", "[]", "\"", "\\", "a b", "a=b", "a@b", "@", "=",
+var zvrhostileStrings = []string{"", " ", "\x00", "a\x00b", "\xff\xfe", "null", "true", "{}", "[]", "\"", "\\", "a b", "a=b", "a@b", "@", "=",
 	" ", " x", "x\u0085", "\t", "\n", "é", "日本語", "😀", "<script>&", "%s%d", "../..", "-c", "NSOK", "NONS", "0.0", "65535.65535"}
 
-func randText(r *mrand.Rand) string {
+func zvrrandText(r *mrand.Rand) string {
 	switch r.Intn(8) {
 	case 0:
-		return pick(r, hostileStrings)
+		return zvrpick(r, zvrhostileStrings)
 	case 1:
-		return randBytes(r, r.Intn(12))
+		return zvrrandBytes(r, r.Intn(12))
 	case 2:
 		if r.Intn(2) == 0 {
-			return strings.Repeat(pick(r, []string{"x=", "@", "= "}), 1+r.Intn(12))
+			return strings.Repeat(zvrpick(r, []string{"x=", "@", "= "}), 1+r.Intn(12))
 		}
-		return strings.Repeat(pick(r, []string{"a", "é", "\x00"}), 1+r.Intn(20000))
+		return strings.Repeat(zvrpick(r, []string{"a", "é", "\x00"}), 1+r.Intn(20000))
 	case 3:
-		return pick(r, poolNames) + pick(r, hostileStrings)
+		return zvrpick(r, zvrpoolNames) + zvrpick(r, zvrhostileStrings)
 	}
-	return pick(r, poolNames)
+	return zvrpick(r, zvrpoolNames)
 }
 
-func randJSONValue(r *mrand.Rand, depth int) interface{} {
+func zvrrandJSONValue(r *mrand.Rand, depth int) interface{} {
 	switch r.Intn(9) {
 	case 0:
 		return nil
@@ -854,7 +866,7 @@ func randJSONValue(r *mrand.Rand, depth int) interface{} {
 			n := r.Intn(4)
 			l := make([]interface{}, n)
 			for i := range l {
-				l[i] = randJSONValue(r, depth-1)
+				l[i] = zvrrandJSONValue(r, depth-1)
 			}
 			return l
 		}
@@ -863,16 +875,16 @@ func randJSONValue(r *mrand.Rand, depth int) interface{} {
 			n := r.Intn(4)
 			m := map[string]interface{}{}
 			for i := 0; i < n; i++ {
-				m[randUTF8(r, 6)] = randJSONValue(r, depth-1)
+				m[zvrrandUTF8(r, 6)] = zvrrandJSONValue(r, depth-1)
 			}
 			return m
 		}
 	}
-	return randUTF8(r, 12)
+	return zvrrandUTF8(r, 12)
 }
 
 // randUTF8 returns a valid UTF-8 string (possibly empty) with JSON metacharacters, spaces and non-ASCII
-func randUTF8(r *mrand.Rand, max int) string {
+func zvrrandUTF8(r *mrand.Rand, max int) string {
 	alphabet := []rune("abcXYZ019 _-.,:;/\\\"'{}[]=@<>&\t\néß中文\U0001F600  \u0000\u007f")
 	n := r.Intn(max + 1)
 	b := make([]rune, n)
@@ -883,100 +895,100 @@ func randUTF8(r *mrand.Rand, max int) string {
 }
 
 // randCleanUTF8: non-empty, free of white space and '@' (what the legacy format is claimed for)
-func randCleanUTF8(r *mrand.Rand, max int) string {
-	s := legacyClean(strings.Map(func(c rune) rune {
+func zvrrandCleanUTF8(r *mrand.Rand, max int) string {
+	s := zvrlegacyClean(strings.Map(func(c rune) rune {
 		if c == 0 {
 			return 'z'
 		}
 		return c
-	}, randUTF8(r, max)))
+	}, zvrrandUTF8(r, max)))
 	return s
 }
 
 // rawJSONObject renders key/value pairs in the given order (duplicates and case variants possible)
-func rawJSONObject(kv [][2]string) string {
+func zvrrawJSONObject(kv [][2]string) string {
 	p := make([]string, len(kv))
 	for i, x := range kv {
-		p[i] = mustJSON(x[0]) + ":" + x[1]
+		p[i] = zvrmustJSON(x[0]) + ":" + x[1]
 	}
 	return "{" + strings.Join(p, ",") + "}"
 }
 
-func randCmdB(r *mrand.Rand) (string, string) {
-	user, host, ver := randText(r), pick(r, poolHosts), randVerAB(r)
+func zvrrandCmdB(r *mrand.Rand) (string, string) {
+	user, host, ver := zvrrandText(r), zvrpick(r, zvrpoolHosts), zvrrandVerAB(r)
 	if r.Intn(4) == 0 {
-		ver = pick(r, append(append([]string{""}, poolBadVer...), poolBigVer...))
+		ver = zvrpick(r, append(append([]string{""}, zvrpoolBadVer...), zvrpoolBigVer...))
 	}
 	switch r.Intn(10) {
 	case 0, 1: // JSON object with extra / unknown / duplicate / case-variant keys
-		kv := [][2]string{{"ifVer", strconv.Itoa(r.Intn(12))}, {"username", mustJSON(user)}, {"hostname", mustJSON(host)}, {"sshClientVersion", mustJSON(ver)}}
+		kv := [][2]string{{"ifVer", strconv.Itoa(r.Intn(12))}, {"username", zvrmustJSON(user)}, {"hostname", zvrmustJSON(host)}, {"sshClientVersion", zvrmustJSON(ver)}}
 		for i := r.Intn(4); i > 0; i-- {
 			switch r.Intn(7) {
 			case 0:
-				kv = append(kv, [2]string{"username", mustJSON(pick(r, poolNames))})
+				kv = append(kv, [2]string{"username", zvrmustJSON(zvrpick(r, zvrpoolNames))})
 			case 1:
-				kv = append(kv, [2]string{pick(r, []string{"USERNAME", "UserName", "HostName", "SSHCLIENTVERSION", "Username"}), mustJSON(pick(r, poolNames))})
+				kv = append(kv, [2]string{zvrpick(r, []string{"USERNAME", "UserName", "HostName", "SSHCLIENTVERSION", "Username"}), zvrmustJSON(zvrpick(r, zvrpoolNames))})
 			case 2:
-				kv = append(kv, [2]string{"exts", mustJSON(randJSONValue(r, 3))})
+				kv = append(kv, [2]string{"exts", zvrmustJSON(zvrrandJSONValue(r, 3))})
 			case 3:
-				kv = append(kv, [2]string{pick(r, []string{"zzz", "", "req", "LOGNAME", "logName"}), mustJSON(randJSONValue(r, 2))})
+				kv = append(kv, [2]string{zvrpick(r, []string{"zzz", "", "req", "LOGNAME", "logName"}), zvrmustJSON(zvrrandJSONValue(r, 2))})
 			case 4:
-				kv = append(kv, [2]string{"big", pick(r, []string{"1e400", "123456789012345678901234567890", "-0", "1E-400"})})
+				kv = append(kv, [2]string{"big", zvrpick(r, []string{"1e400", "123456789012345678901234567890", "-0", "1E-400"})})
 			case 5:
-				kv = append(kv, [2]string{"touchlessSudo", pick(r, []string{"null", "{}", `{"time":9223372036854775807}`, `{"time":9223372036854775808}`, `{"hosts":"a,b","isFirefighter":true}`, "[]", "7"})})
+				kv = append(kv, [2]string{"touchlessSudo", zvrpick(r, []string{"null", "{}", `{"time":9223372036854775807}`, `{"time":9223372036854775808}`, `{"hosts":"a,b","isFirefighter":true}`, "[]", "7"})})
 			case 6:
 				kv = append(kv, [2]string{"deep", strings.Repeat("[", 1+r.Intn(300)) + strings.Repeat("]", 1+r.Intn(300))})
 			}
 		}
 		r.Shuffle(len(kv), func(i, j int) { kv[i], kv[j] = kv[j], kv[i] })
-		return rawJSONObject(kv), "B:jsonobj"
+		return zvrrawJSONObject(kv), "B:jsonobj"
 	case 2: // JSON object whose values are of other types
-		kv := [][2]string{{"username", pick(r, []string{"5", "null", "[]", "{}", "true", mustJSON(user)})}, {"hostname", pick(r, []string{"null", mustJSON(host), "1"})},
-			{"sshClientVersion", pick(r, []string{mustJSON(ver), "8.1", "null"})}, {"ifVer", pick(r, []string{"7", "\"7\"", "7.5", "1e3", "null", "99999999999999999999"})}}
-		return rawJSONObject(kv), "B:jsontypes"
+		kv := [][2]string{{"username", zvrpick(r, []string{"5", "null", "[]", "{}", "true", zvrmustJSON(user)})}, {"hostname", zvrpick(r, []string{"null", zvrmustJSON(host), "1"})},
+			{"sshClientVersion", zvrpick(r, []string{zvrmustJSON(ver), "8.1", "null"})}, {"ifVer", zvrpick(r, []string{"7", "\"7\"", "7.5", "1e3", "null", "99999999999999999999"})}}
+		return zvrrawJSONObject(kv), "B:jsontypes"
 	case 3: // other JSON values
-		return pick(r, []string{"null", " null ", "[]", "[null]", "0", "-1", "\"\"", "true", "false", "{}", " {} ", "[{}]", "\"a b req=u@h c\"",
+		return zvrpick(r, []string{"null", " null ", "[]", "[null]", "0", "-1", "\"\"", "true", "false", "{}", " {} ", "[{}]", "\"a b req=u@h c\"",
 			strings.Repeat("[", 10001) + strings.Repeat("]", 10001), "{\"a\":" + strings.Repeat("[", 5000) + strings.Repeat("]", 5000) + "}"}), "B:jsonother"
 	case 4, 5: // legacy text with free tokens
 		keys := []string{"req", "req", "SSHClientVersion", "IFVer", "HardKey", "Touch2SSH", "IsFirefighter", "TouchlessSudoHosts", "TouchlessSudoTime", "x", "REQ", "", "req "}
 		n := r.Intn(6)
 		s := ""
 		for i := 0; i < n; i++ {
-			k := pick(r, keys)
+			k := zvrpick(r, keys)
 			var v string
 			switch r.Intn(6) {
 			case 0:
 				v = ""
 			case 1:
-				v = "=" + legacyClean(user) + "@" + legacyClean(host)
+				v = "=" + zvrlegacyClean(user) + "@" + zvrlegacyClean(host)
 			case 2:
 				v = "=" + ver
 			case 3:
-				v = "=" + pick(r, []string{"true", "false", "1", "a@b@c", "@", "a=b@c", "x", "", " ", "a\tb@c", "\xff@\xfe"})
+				v = "=" + zvrpick(r, []string{"true", "false", "1", "a@b@c", "@", "a=b@c", "x", "", " ", "a\tb@c", "\xff@\xfe"})
 			case 4:
-				v = "=" + pick(r, hostileStrings)
+				v = "=" + zvrpick(r, zvrhostileStrings)
 			case 5:
-				v = "=" + randCleanUTF8(r, 8) + "@" + randCleanUTF8(r, 8)
+				v = "=" + zvrrandCleanUTF8(r, 8) + "@" + zvrrandCleanUTF8(r, 8)
 			}
-			s += strings.Repeat(" ", r.Intn(3)) + pick(r, []string{"", "", "", "\t", "\n"}) + k + v + pick(r, []string{"", "", "", "\r", "\u0085"}) + " "
+			s += strings.Repeat(" ", r.Intn(3)) + zvrpick(r, []string{"", "", "", "\t", "\n"}) + k + v + zvrpick(r, []string{"", "", "", "\r", "\u0085"}) + " "
 		}
 		return s, "B:legacy"
 	case 6:
-		return randBytes(r, r.Intn(40)), "B:bytes"
+		return zvrrandBytes(r, r.Intn(40)), "B:bytes"
 	case 7: // a valid message damaged at one byte
-		s := mustJSON(map[string]interface{}{"ifVer": 7, "username": "u", "hostname": "h", "sshClientVersion": "8.1"})
+		s := zvrmustJSON(map[string]interface{}{"ifVer": 7, "username": "u", "hostname": "h", "sshClientVersion": "8.1"})
 		b := []byte(s)
 		b[r.Intn(len(b))] = byte(r.Intn(256))
 		return string(b), "B:damaged"
 	case 8:
-		return "IFVer=6 SSHClientVersion=" + ver + " req=" + legacyClean(user) + "@" + legacyClean(host) + " HardKey=true", "B:legacyvalid"
+		return "IFVer=6 SSHClientVersion=" + ver + " req=" + zvrlegacyClean(user) + "@" + zvrlegacyClean(host) + " HardKey=true", "B:legacyvalid"
 	}
-	return mustJSON(map[string]interface{}{"ifVer": 7, "username": user, "hostname": host, "sshClientVersion": ver, "exts": randJSONValue(r, 3)}), "B:jsonvalid"
+	return zvrmustJSON(map[string]interface{}{"ifVer": 7, "username": user, "hostname": host, "sshClientVersion": ver, "exts": zvrrandJSONValue(r, 3)}), "B:jsonvalid"
 }
 
-func randIn14(r *mrand.Rand) vIn14 {
-	cmd, cls := randCmdB(r)
-	in := vIn14{Cmd: hx(cmd), Xok: "na", Cls: cls, Ipc: "unknown"}
+func zvrrandIn14(r *mrand.Rand) zvrvIn14 {
+	cmd, cls := zvrrandCmdB(r)
+	in := zvrvIn14{Cmd: zvrhx(cmd), Xok: "na", Cls: cls, Ipc: "unknown"}
 	good := r.Intn(2) == 0 // every other call has well-formed server-side inputs, so that the command text decides
 	lsel, csel := r.Intn(6), r.Intn(11)
 	if good {
@@ -984,35 +996,35 @@ func randIn14(r *mrand.Rand) vIn14 {
 	}
 	switch lsel {
 	case 0:
-		in.Log = hx("")
+		in.Log = zvrhx("")
 	case 1:
-		in.Log = hx(randText(r))
+		in.Log = zvrhx(zvrrandText(r))
 	default:
-		in.Log = hx(pick(r, poolNames))
+		in.Log = zvrhx(zvrpick(r, zvrpoolNames))
 	}
-	rest := pick(r, []string{"", " 22", " 50000 10.0.0.1 22", " " + randV4(r) + " 1", "  x", " \x00"})
+	rest := zvrpick(r, []string{"", " 22", " 50000 10.0.0.1 22", " " + zvrrandV4(r) + " 1", "  x", " \x00"})
 	if good {
-		rest = pick(r, []string{"", " 22", " 50000 10.0.0.1 22"})
+		rest = zvrpick(r, []string{"", " 22", " 50000 10.0.0.1 22"})
 	}
 	switch csel {
 	case 0:
-		in.Conn, in.Ipc = hx(pick(r, poolV6)+rest), "v6"
+		in.Conn, in.Ipc = zvrhx(zvrpick(r, zvrpoolV6)+rest), "v6"
 	case 1:
-		in.Conn, in.Ipc = hx(pick(r, poolNotIP)+rest), "notip"
+		in.Conn, in.Ipc = zvrhx(zvrpick(r, zvrpoolNotIP)+rest), "notip"
 	case 2:
-		in.Conn, in.Ipc = hx(""), "notip"
+		in.Conn, in.Ipc = zvrhx(""), "notip"
 	case 3: // free bytes (the class of the first field is not known to the driver)
-		in.Conn = hx(randBytes(r, r.Intn(20)))
+		in.Conn = zvrhx(zvrrandBytes(r, r.Intn(20)))
 	case 4:
-		in.Conn = hx(pick(r, hostileStrings) + rest)
+		in.Conn = zvrhx(zvrpick(r, zvrhostileStrings) + rest)
 	case 8: // an address with a zone / junk behind '%' (never a valid client IP)
-		in.Conn, in.Ipc = hx(pick(r, append(append([]string{}, poolV6Zone...), poolZoneBad...))+rest), "notip"
+		in.Conn, in.Ipc = zvrhx(zvrpick(r, append(append([]string{}, zvrpoolV6Zone...), zvrpoolZoneBad...))+rest), "notip"
 	case 9: // an address inside other text; the class is left to the validator
-		in.Conn = hx(pick(r, append(append(append(append([]string{}, poolV4Zone...), poolIPJunk...), poolBracket...), poolPort...)) + rest)
+		in.Conn = zvrhx(zvrpick(r, append(append(append(append([]string{}, zvrpoolV4Zone...), zvrpoolIPJunk...), zvrpoolBracket...), zvrpoolPort...)) + rest)
 	case 10: // a valid address with something glued on, built freely
-		in.Conn = hx(pick(r, append(append([]string{randV4(r)}, poolV6...), poolMapped...)) + pick(r, []string{"", "", "%", "%" + randCleanUTF8(r, 10), ",", "=", "\"", "%25", "%eth0"}) + rest)
+		in.Conn = zvrhx(zvrpick(r, append(append([]string{zvrrandV4(r)}, zvrpoolV6...), zvrpoolMapped...)) + zvrpick(r, []string{"", "", "%", "%" + zvrrandCleanUTF8(r, 10), ",", "=", "\"", "%25", "%eth0"}) + rest)
 	default:
-		in.Conn, in.Ipc = hx(randV4(r)+rest), "v4"
+		in.Conn, in.Ipc = zvrhx(zvrrandV4(r)+rest), "v4"
 	}
 	nargs := r.Intn(9)
 	in.Argv = make([]string, nargs)
@@ -1024,16 +1036,16 @@ func randIn14(r *mrand.Rand) vIn14 {
 	for i := range in.Argv {
 		w := make([]string, 1+r.Intn(3))
 		for j := range w {
-			w[j] = pick(r, poolFill)
+			w[j] = zvrpick(r, zvrpoolFill)
 			if r.Intn(12) == 0 {
-				w[j] = pick(r, hostileStrings)
+				w[j] = zvrpick(r, zvrhostileStrings)
 			}
 		}
 		in.Argv[i] = strings.Join(w, " ")
 	}
 	if valid && nargs > 0 {
 		// a well-formed force command in the tail, possibly inside one argument
-		tail := pick(r, []string{"NSOK", "NONS"}) + " " + pick(r, poolHandler)
+		tail := zvrpick(r, []string{"NSOK", "NONS"}) + " " + zvrpick(r, zvrpoolHandler)
 		sel := r.Intn(3)
 		if good {
 			sel = r.Intn(2)
@@ -1048,7 +1060,7 @@ func randIn14(r *mrand.Rand) vIn14 {
 		}
 	}
 	for i := range in.Argv {
-		in.Argv[i] = hx(in.Argv[i])
+		in.Argv[i] = zvrhx(in.Argv[i])
 	}
 	return in
 }
@@ -1056,45 +1068,45 @@ func randIn14(r *mrand.Rand) vIn14 {
 // ---------------------------------------------------------------------------------------------
 // C15: message.Marshal / Unmarshal / UnmarshalLegacy
 
-type vD15 struct {
-	Ok  bool  `json:"ok"`
-	Pan bool  `json:"pan"`
-	B   vAttr `json:"b"`
+type zvrvD15 struct {
+	Ok  bool     `json:"ok"`
+	Pan bool     `json:"pan"`
+	B   zvrvAttr `json:"b"`
 }
-type vEnc struct {
+type zvrvEnc struct {
 	Ok  bool `json:"ok"`
 	Pan bool `json:"pan"`
 }
-type vEvRt struct {
-	Op    string  `json:"op"`
-	A     vAttr   `json:"a"`
-	Clean bool    `json:"clean"`
-	Enc   vEnc    `json:"enc"`
-	Wire  []vAtom `json:"wire"`
-	Dec   vD15    `json:"dec"`
-	Dec2  vD15    `json:"dec2"`
-	Xok   string  `json:"xok"`
-	Mode  string  `json:"mode"` // seq / hist / conc
-	Same  bool    `json:"same"` // hist: the same set encoded again later gave the same text
+type zvrvEvRt struct {
+	Op    string     `json:"op"`
+	A     zvrvAttr   `json:"a"`
+	Clean bool       `json:"clean"`
+	Enc   zvrvEnc    `json:"enc"`
+	Wire  []zvrvAtom `json:"wire"`
+	Dec   zvrvD15    `json:"dec"`
+	Dec2  zvrvD15    `json:"dec2"`
+	Xok   string     `json:"xok"`
+	Mode  string     `json:"mode"` // seq / hist / conc
+	Same  bool       `json:"same"` // hist: the same set encoded again later gave the same text
 }
-type vEvLeg struct {
-	Op    string  `json:"op"`
-	Atoms []vAtom `json:"atoms"`
-	Res   vD15    `json:"res"`
-	Xok   string  `json:"xok"`
+type zvrvEvLeg struct {
+	Op    string     `json:"op"`
+	Atoms []zvrvAtom `json:"atoms"`
+	Res   zvrvD15    `json:"res"`
+	Xok   string     `json:"xok"`
 }
-type vEvDec struct {
-	Op  string `json:"op"`
-	Cmd vCmd15 `json:"cmd"`
-	Res vD15   `json:"res"`
-	Xok string `json:"xok"`
+type zvrvEvDec struct {
+	Op  string    `json:"op"`
+	Cmd zvrvCmd15 `json:"cmd"`
+	Res zvrvD15   `json:"res"`
+	Xok string    `json:"xok"`
 }
 
-func decodeWith(f func(string) (*message.Attributes, error), text string) (d vD15) {
-	d.B = zeroAttr()
+func zvrdecodeWith(f func(string) (*message.Attributes, error), text string) (d zvrvD15) {
+	d.B = zvrzeroAttr()
 	defer func() {
 		if x := recover(); x != nil {
-			d = vD15{Pan: true, B: zeroAttr()}
+			d = zvrvD15{Pan: true, B: zvrzeroAttr()}
 		}
 	}()
 	a, err := f(text)
@@ -1102,21 +1114,21 @@ func decodeWith(f func(string) (*message.Attributes, error), text string) (d vD1
 		return d
 	}
 	d.Ok = true // a nil result without error is recorded as a success with the zero set (the formulas reject it where they apply)
-	d.B = attrOfMessage(a)
+	d.B = zvrattrOfMessage(a)
 	return d
 }
 
-func encode(a *message.Attributes) (text string, e vEnc) {
+func zvrencode(a *message.Attributes) (text string, e zvrvEnc) {
 	defer func() {
 		if x := recover(); x != nil {
-			e = vEnc{Pan: true}
+			e = zvrvEnc{Pan: true}
 		}
 	}()
 	s, err := a.Marshal()
-	return s, vEnc{Ok: err == nil}
+	return s, zvrvEnc{Ok: err == nil}
 }
 
-func attrsClean(a *message.Attributes) bool {
+func zvrattrsClean(a *message.Attributes) bool {
 	ok := func(s string) bool {
 		if !utf8.ValidString(s) {
 			return false
@@ -1138,7 +1150,7 @@ func attrsClean(a *message.Attributes) bool {
 	return ok(a.SSHClientVersion) && ok(a.Username) && ok(a.Hostname) && ok(h)
 }
 
-type vInRt struct {
+type zvrvInRt struct {
 	Attrs json.RawMessage `json:"attrs"` // the attribute set as JSON of message.Attributes (replay input)
 	Xok   string          `json:"xok"`
 	Mode  string          `json:"mode"`
@@ -1146,10 +1158,10 @@ type vInRt struct {
 
 // mkRt encodes and decodes one attribute set and builds the event (no shared state).  The decoded objects are
 // returned so that the caller can tamper with them (aliasing check).
-func mkRt(a *message.Attributes, xok, mode string) (ev vEvRt, info vInRt, text string, got []*message.Attributes) {
+func zvrmkRt(a *message.Attributes, xok, mode string) (ev zvrvEvRt, info zvrvInRt, text string, got []*message.Attributes) {
 	raw, _ := json.Marshal(a)
-	ev = vEvRt{Op: "rt", A: attrOfMessage(a), Clean: attrsClean(a), Wire: []vAtom{}, Dec: vD15{B: zeroAttr()}, Dec2: vD15{B: zeroAttr()}, Xok: xok, Mode: mode, Same: true}
-	text, ev.Enc = encode(a)
+	ev = zvrvEvRt{Op: "rt", A: zvrattrOfMessage(a), Clean: zvrattrsClean(a), Wire: []zvrvAtom{}, Dec: zvrvD15{B: zvrzeroAttr()}, Dec2: zvrvD15{B: zvrzeroAttr()}, Xok: xok, Mode: mode, Same: true}
+	text, ev.Enc = zvrencode(a)
 	if ev.Enc.Ok {
 		var g1, g2 *message.Attributes
 		keep := func(f func(string) (*message.Attributes, error), dst **message.Attributes) func(string) (*message.Attributes, error) {
@@ -1159,18 +1171,18 @@ func mkRt(a *message.Attributes, xok, mode string) (ev vEvRt, info vInRt, text s
 				return x, err
 			}
 		}
-		ev.Dec = decodeWith(keep(message.Unmarshal, &g1), text)
+		ev.Dec = zvrdecodeWith(keep(message.Unmarshal, &g1), text)
 		ev.Dec2 = ev.Dec
 		if a.IfVer < 7 {
-			ev.Wire = atomize(text)
-			ev.Dec2 = decodeWith(keep(message.UnmarshalLegacy, &g2), text)
+			ev.Wire = zvratomize(text)
+			ev.Dec2 = zvrdecodeWith(keep(message.UnmarshalLegacy, &g2), text)
 		}
 		got = []*message.Attributes{g1, g2}
 	}
-	return ev, vInRt{Attrs: raw, Xok: xok, Mode: mode}, text, got
+	return ev, zvrvInRt{Attrs: raw, Xok: xok, Mode: mode}, text, got
 }
 
-func (r *vRun) addRt(ev vEvRt, info vInRt) {
+func (r *zvrvRun) addRt(ev zvrvEvRt, info zvrvInRt) {
 	if ev.Enc.Pan || ev.Dec.Pan || ev.Dec2.Pan {
 		r.pan++
 	}
@@ -1182,16 +1194,16 @@ func (r *vRun) addRt(ev vEvRt, info vInRt) {
 	r.emit("r", ev, info)
 }
 
-func (r *vRun) doRt(a *message.Attributes, xok string) {
-	if !fitsTLC(a.IfVer) {
+func (r *zvrvRun) doRt(a *message.Attributes, xok string) {
+	if !zvrfitsTLC(a.IfVer) {
 		return
 	}
-	ev, info, _, _ := mkRt(a, xok, "seq")
+	ev, info, _, _ := zvrmkRt(a, xok, "seq")
 	r.addRt(ev, info)
 }
 
 // tamper changes everything reachable from a decoded attribute set; a later decode must not see it
-func tamper(a *message.Attributes) {
+func zvrtamper(a *message.Attributes) {
 	if a == nil {
 		return
 	}
@@ -1210,21 +1222,21 @@ func tamper(a *message.Attributes) {
 // doRtHist: history independence.  The set is encoded and decoded, the decoded objects are tampered with, other
 // sets are encoded and decoded in between, then the same set is encoded and decoded again: both rounds are
 // ordinary round-trip events; the second one also says whether the text came out the same.
-func (r *vRun) doRtHist(a *message.Attributes, others []*message.Attributes) {
-	if !fitsTLC(a.IfVer) {
+func (r *zvrvRun) doRtHist(a *message.Attributes, others []*message.Attributes) {
+	if !zvrfitsTLC(a.IfVer) {
 		return
 	}
-	ev1, info1, text1, got := mkRt(a, "na", "hist")
+	ev1, info1, text1, got := zvrmkRt(a, "na", "hist")
 	for _, g := range got {
-		tamper(g)
+		zvrtamper(g)
 	}
 	for _, o := range others {
-		_, _, _, g := mkRt(o, "na", "hist")
+		_, _, _, g := zvrmkRt(o, "na", "hist")
 		for _, x := range g {
-			tamper(x)
+			zvrtamper(x)
 		}
 	}
-	ev2, info2, text2, _ := mkRt(a, "na", "hist")
+	ev2, info2, text2, _ := zvrmkRt(a, "na", "hist")
 	ev2.Same = text1 == text2
 	r.addRt(ev1, info1)
 	r.addRt(ev2, info2)
@@ -1232,7 +1244,7 @@ func (r *vRun) doRtHist(a *message.Attributes, others []*message.Attributes) {
 
 // concRt: g goroutines encode and decode their own, pairwise distinct attribute sets at the same time; every round
 // is an ordinary round-trip event.  first (replay) gives sets that goroutine 0 uses.
-func (r *vRun) concRt(rnd *mrand.Rand, g, rounds int, first []*message.Attributes) {
+func (r *zvrvRun) concRt(rnd *mrand.Rand, g, rounds int, first []*message.Attributes) {
 	sets := make([][]*message.Attributes, g)
 	for i := range sets {
 		sets[i] = make([]*message.Attributes, rounds)
@@ -1242,13 +1254,13 @@ func (r *vRun) concRt(rnd *mrand.Rand, g, rounds int, first []*message.Attribute
 				c := *first[j%len(first)]
 				a = &c
 			} else {
-				a = randSet(rnd)
-				for !fitsTLC(a.IfVer) {
-					a = randSet(rnd)
+				a = zvrrandSet(rnd)
+				for !zvrfitsTLC(a.IfVer) {
+					a = zvrrandSet(rnd)
 				}
 				if rnd.Intn(4) > 0 && a.IfVer >= 7 { // mostly the legacy format
 					a.IfVer = rnd.Intn(7)
-					a = legacyCleanSet(a)
+					a = zvrlegacyCleanSet(a)
 				}
 				if a.Username != "" { // pairwise distinct across goroutines and rounds
 					a.Username = fmt.Sprintf("g%dr%d-%s", i, j, a.Username)
@@ -1261,8 +1273,8 @@ func (r *vRun) concRt(rnd *mrand.Rand, g, rounds int, first []*message.Attribute
 		}
 	}
 	type out struct {
-		ev   vEvRt
-		info vInRt
+		ev   zvrvEvRt
+		info zvrvInRt
 	}
 	outs := make([][]out, g)
 	start := make(chan struct{})
@@ -1274,7 +1286,7 @@ func (r *vRun) concRt(rnd *mrand.Rand, g, rounds int, first []*message.Attribute
 			defer wg.Done()
 			<-start
 			for j, a := range sets[i] {
-				ev, info, _, _ := mkRt(a, "na", "conc")
+				ev, info, _, _ := zvrmkRt(a, "na", "conc")
 				outs[i][j] = out{ev, info}
 			}
 		}(i)
@@ -1289,12 +1301,12 @@ func (r *vRun) concRt(rnd *mrand.Rand, g, rounds int, first []*message.Attribute
 }
 
 // legacyCleanSet makes the text values of a set fit the legacy format (no white space, no '@')
-func legacyCleanSet(a *message.Attributes) *message.Attributes {
+func zvrlegacyCleanSet(a *message.Attributes) *message.Attributes {
 	c := func(s string) string {
 		if s == "" {
 			return s
 		}
-		return strings.ToValidUTF8(legacyClean(s), "u")
+		return strings.ToValidUTF8(zvrlegacyClean(s), "u")
 	}
 	a.SSHClientVersion, a.Username, a.Hostname = c(a.SSHClientVersion), c(a.Username), c(a.Hostname)
 	if a.TouchlessSudo != nil {
@@ -1303,42 +1315,42 @@ func legacyCleanSet(a *message.Attributes) *message.Attributes {
 	return a
 }
 
-type vInText struct {
+type zvrvInText struct {
 	Text string `json:"text"` // hex
 	Xok  string `json:"xok"`
 	Cls  string `json:"cls"`
 }
 
-func (r *vRun) doLegacyText(text, xok, cls string) {
-	ev := vEvLeg{Op: "declegacy", Atoms: atomize(text), Xok: xok}
-	ev.Res = decodeWith(message.UnmarshalLegacy, text)
-	if !fitsTLC(ev.Res.B.IfVer) {
+func (r *zvrvRun) doLegacyText(text, xok, cls string) {
+	ev := zvrvEvLeg{Op: "declegacy", Atoms: zvratomize(text), Xok: xok}
+	ev.Res = zvrdecodeWith(message.UnmarshalLegacy, text)
+	if !zvrfitsTLC(ev.Res.B.IfVer) {
 		ev.Res.B.IfVer = 0 // not constrained for free legacy text
 	}
 	if ev.Res.Pan {
 		r.pan++
 	}
 	r.classes["leg/"+strconv.FormatBool(ev.Res.Ok)]++
-	r.emit("l", ev, vInText{Text: hx(text), Xok: xok, Cls: cls})
+	r.emit("l", ev, zvrvInText{Text: zvrhx(text), Xok: xok, Cls: cls})
 }
 
-func (r *vRun) doDecode(text, xok, cls string) {
-	_, c15 := lexCmd(text)
-	ev := vEvDec{Op: "decode", Cmd: c15, Xok: xok}
-	ev.Res = decodeWith(message.Unmarshal, text)
-	if !fitsTLC(c15.Ja.IfVer) || !fitsTLC(ev.Res.B.IfVer) {
+func (r *zvrvRun) doDecode(text, xok, cls string) {
+	_, c15 := zvrlexCmd(text)
+	ev := zvrvEvDec{Op: "decode", Cmd: c15, Xok: xok}
+	ev.Res = zvrdecodeWith(message.Unmarshal, text)
+	if !zvrfitsTLC(c15.Ja.IfVer) || !zvrfitsTLC(ev.Res.B.IfVer) {
 		return
 	}
 	if ev.Res.Pan {
 		r.pan++
 	}
 	r.classes["dec/"+c15.Jk+"/"+strconv.FormatBool(c15.Dec)+"/"+strconv.FormatBool(ev.Res.Ok)]++
-	r.emit("d", ev, vInText{Text: hx(text), Xok: xok, Cls: cls})
+	r.emit("d", ev, zvrvInText{Text: zvrhx(text), Xok: xok, Cls: cls})
 }
 
 // --- concretisation of the exported C15 classes
 
-type vSet15 struct {
+type zvrvSet15 struct {
 	IfVer   int    `json:"ifVer"`
 	Ver     string `json:"ver"`
 	User    string `json:"user"`
@@ -1351,7 +1363,7 @@ type vSet15 struct {
 	Exts    string `json:"exts"`
 }
 
-func randExts(r *mrand.Rand, cls string) map[string]interface{} {
+func zvrrandExts(r *mrand.Rand, cls string) map[string]interface{} {
 	switch cls {
 	case "none":
 		if r.Intn(2) == 0 {
@@ -1361,18 +1373,18 @@ func randExts(r *mrand.Rand, cls string) map[string]interface{} {
 	case "flat":
 		m := map[string]interface{}{}
 		for i := 1 + r.Intn(3); i > 0; i-- {
-			m[randUTF8(r, 6)] = randUTF8(r, 10)
+			m[zvrrandUTF8(r, 6)] = zvrrandUTF8(r, 10)
 		}
 		return m
 	}
 	m := map[string]interface{}{"nested": map[string]interface{}{"l": []interface{}{1, true, "x", 2.5, map[string]interface{}{"k": []interface{}{}}}}}
 	for i := r.Intn(4); i > 0; i-- {
-		m[randUTF8(r, 6)] = randJSONValue(r, 3)
+		m[zvrrandUTF8(r, 6)] = zvrrandJSONValue(r, 3)
 	}
 	return m
 }
 
-func randTime(r *mrand.Rand) int64 {
+func zvrrandTime(r *mrand.Rand) int64 {
 	switch r.Intn(6) {
 	case 0:
 		return 1<<63 - 1
@@ -1384,20 +1396,20 @@ func randTime(r *mrand.Rand) int64 {
 	return int64(r.Intn(100000)) + 1
 }
 
-func concreteSet(r *mrand.Rand, s vSet15) *message.Attributes {
+func zvrconcreteSet(r *mrand.Rand, s zvrvSet15) *message.Attributes {
 	str := func(max int) string {
 		if s.IfVer < 7 {
-			return randCleanUTF8(r, max)
+			return zvrrandCleanUTF8(r, max)
 		}
 		for {
-			if x := randUTF8(r, max); x != "" {
+			if x := zvrrandUTF8(r, max); x != "" {
 				return x
 			}
 		}
 	}
 	a := &message.Attributes{IfVer: s.IfVer, HardKey: s.HardKey, Touch2SSH: s.Touch}
 	if s.Ver != "" {
-		a.SSHClientVersion = pick(r, []string{randVerAB(r), "8.1", str(6)})
+		a.SSHClientVersion = zvrpick(r, []string{zvrrandVerAB(r), "8.1", str(6)})
 	}
 	switch s.User {
 	case "":
@@ -1415,10 +1427,10 @@ func concreteSet(r *mrand.Rand, s vSet15) *message.Attributes {
 		a.Hostname = str(12)
 	}
 	if s.Ca != "0" {
-		a.CAPubKeyAlgo = x509PKA(1 + r.Intn(5))
+		a.CAPubKeyAlgo = zvrx509PKA(1 + r.Intn(5))
 	}
 	if s.Sig != "0" {
-		a.SignatureAlgo = x509SA(r.Intn(40) - 20)
+		a.SignatureAlgo = zvrx509SA(r.Intn(40) - 20)
 		if a.SignatureAlgo == 0 {
 			a.SignatureAlgo = 16
 		}
@@ -1431,18 +1443,18 @@ func concreteSet(r *mrand.Rand, s vSet15) *message.Attributes {
 	case "hosts":
 		a.TouchlessSudo = &message.TouchlessSudo{Hosts: str(20)}
 	case "time":
-		a.TouchlessSudo = &message.TouchlessSudo{Time: randTime(r)}
+		a.TouchlessSudo = &message.TouchlessSudo{Time: zvrrandTime(r)}
 	case "all":
-		a.TouchlessSudo = &message.TouchlessSudo{IsFirefighter: true, Hosts: str(8) + "," + str(8), Time: randTime(r)}
+		a.TouchlessSudo = &message.TouchlessSudo{IsFirefighter: true, Hosts: str(8) + "," + str(8), Time: zvrrandTime(r)}
 	}
-	a.Exts = randExts(r, s.Exts)
+	a.Exts = zvrrandExts(r, s.Exts)
 	return a
 }
 
-func randSet(r *mrand.Rand) *message.Attributes {
-	s := vSet15{IfVer: pick1(r, []int{-3, 0, 1, 5, 6, 7, 7, 8, 12, 1000}), Ver: "v", User: pick(r, []string{"u", "u", "u", "613d62"}), Host: "h",
-		HardKey: r.Intn(2) == 0, Touch: r.Intn(2) == 0, Ts: pick(r, []string{"absent", "zero", "ff", "hosts", "time", "all"}),
-		Ca: pick(r, []string{"0", "1"}), Sig: pick(r, []string{"0", "1"}), Exts: pick(r, []string{"none", "flat", "nested"})}
+func zvrrandSet(r *mrand.Rand) *message.Attributes {
+	s := zvrvSet15{IfVer: zvrpick1(r, []int{-3, 0, 1, 5, 6, 7, 7, 8, 12, 1000}), Ver: "v", User: zvrpick(r, []string{"u", "u", "u", "613d62"}), Host: "h",
+		HardKey: r.Intn(2) == 0, Touch: r.Intn(2) == 0, Ts: zvrpick(r, []string{"absent", "zero", "ff", "hosts", "time", "all"}),
+		Ca: zvrpick(r, []string{"0", "1"}), Sig: zvrpick(r, []string{"0", "1"}), Exts: zvrpick(r, []string{"none", "flat", "nested"})}
 	if r.Intn(10) == 0 {
 		switch r.Intn(3) {
 		case 0:
@@ -1453,36 +1465,36 @@ func randSet(r *mrand.Rand) *message.Attributes {
 			s.Host = ""
 		}
 	}
-	return concreteSet(r, s)
+	return zvrconcreteSet(r, s)
 }
 
-func pick1(r *mrand.Rand, p []int) int { return p[r.Intn(len(p))] }
+func zvrpick1(r *mrand.Rand, p []int) int { return p[r.Intn(len(p))] }
 
-type vLTok struct {
+type zvrvLTok struct {
 	Key   string `json:"key"`
 	Shape string `json:"shape"`
 }
 
-func concreteLegacyText(r *mrand.Rand, toks []vLTok) string {
+func zvrconcreteLegacyText(r *mrand.Rand, toks []zvrvLTok) string {
 	s := strings.Repeat(" ", r.Intn(3)/2)
 	for _, t := range toks {
 		f := t.Key
 		good := func() string {
 			switch t.Key {
 			case "req":
-				return randCleanUTF8(r, 6) + "@" + randCleanUTF8(r, 6)
+				return zvrrandCleanUTF8(r, 6) + "@" + zvrrandCleanUTF8(r, 6)
 			case "HardKey", "Touch2SSH", "IsFirefighter":
 				return "true"
 			case "IFVer":
 				return "6"
 			case "SSHClientVersion":
-				return randVerAB(r)
+				return zvrrandVerAB(r)
 			case "TouchlessSudoHosts":
 				return "h1,h2"
 			case "TouchlessSudoTime":
 				return strconv.Itoa(1 + r.Intn(1000))
 			}
-			return randCleanUTF8(r, 5)
+			return zvrrandCleanUTF8(r, 5)
 		}
 		switch t.Shape {
 		case "empty":
@@ -1491,13 +1503,13 @@ func concreteLegacyText(r *mrand.Rand, toks []vLTok) string {
 			f += "=" + good()
 		case "valeq":
 			if t.Key == "req" {
-				f += "=" + randCleanUTF8(r, 3) + "=" + randCleanUTF8(r, 3) + "@" + randCleanUTF8(r, 6)
+				f += "=" + zvrrandCleanUTF8(r, 3) + "=" + zvrrandCleanUTF8(r, 3) + "@" + zvrrandCleanUTF8(r, 6)
 			} else {
-				f += "=" + strings.Replace(good(), "@", "", -1) + "=" + pick(r, []string{"w", "", "=", "true"})
+				f += "=" + strings.Replace(good(), "@", "", -1) + "=" + zvrpick(r, []string{"w", "", "=", "true"})
 			}
 		}
 		// stray white space: extra spaces between fields, other white space at the edges of a field
-		s += pick(r, []string{"", "", "", "\t", "\n"}) + f + pick(r, []string{"", "", "", "\r", "\t"}) + strings.Repeat(" ", 1+r.Intn(3)/2)
+		s += zvrpick(r, []string{"", "", "", "\t", "\n"}) + f + zvrpick(r, []string{"", "", "", "\r", "\t"}) + strings.Repeat(" ", 1+r.Intn(3)/2)
 	}
 	if r.Intn(2) == 0 {
 		s = strings.TrimRight(s, " ")
@@ -1505,27 +1517,27 @@ func concreteLegacyText(r *mrand.Rand, toks []vLTok) string {
 	return s
 }
 
-type vDec15 struct {
+type zvrvDec15 struct {
 	Jk    string `json:"jk"`
 	Miss  string `json:"miss"`
 	Emb   bool   `json:"emb"`
 	Shape string `json:"shape"`
 }
 
-func concreteDecode(r *mrand.Rand, d vDec15) string {
+func zvrconcreteDecode(r *mrand.Rand, d zvrvDec15) string {
 	emb := "plain"
 	if d.Emb {
-		emb = "a" + spaces(r) + "req=mallory@evil" + spaces(r) + "SSHClientVersion=9.9 b"
+		emb = "a" + zvrspaces(r) + "req=mallory@evil" + zvrspaces(r) + "SSHClientVersion=9.9 b"
 	}
 	switch d.Jk {
 	case "null":
 		return "null"
 	case "array":
-		return mustJSON([]interface{}{emb})
+		return zvrmustJSON([]interface{}{emb})
 	case "string":
-		return mustJSON(emb)
+		return zvrmustJSON(emb)
 	}
-	m := map[string]interface{}{"ifVer": 7, "username": randUTF8(r, 8) + "u", "hostname": randUTF8(r, 8) + "h", "sshClientVersion": randVerAB(r), "hardKey": true,
+	m := map[string]interface{}{"ifVer": 7, "username": zvrrandUTF8(r, 8) + "u", "hostname": zvrrandUTF8(r, 8) + "h", "sshClientVersion": zvrrandVerAB(r), "hardKey": true,
 		"exts": map[string]interface{}{"note": emb}}
 	key := map[string]string{"ver": "sshClientVersion", "user": "username", "host": "hostname"}[d.Miss]
 	if key != "" {
@@ -1537,72 +1549,72 @@ func concreteDecode(r *mrand.Rand, d vDec15) string {
 	}
 	switch d.Shape {
 	case "extra":
-		m["unknown"] = randJSONValue(r, 3)
+		m["unknown"] = zvrrandJSONValue(r, 3)
 		m["touchlessSudo"] = map[string]interface{}{"hosts": "a,b", "time": 5, "other": 1}
 	case "badtype":
-		m[pick(r, []string{"hardKey", "touch2SSH", "ifVer", "touchlessSudo", "caPubKeyAlgo", "signatureAlgo"})] = "text"
+		m[zvrpick(r, []string{"hardKey", "touch2SSH", "ifVer", "touchlessSudo", "caPubKeyAlgo", "signatureAlgo"})] = "text"
 	case "ifver6":
-		m["ifVer"] = pick1(r, []int{6, 0, -1})
+		m["ifVer"] = zvrpick1(r, []int{6, 0, -1})
 	}
-	return mustJSON(m)
+	return zvrmustJSON(m)
 }
 
-func randLegacyTextB(r *mrand.Rand) string {
+func zvrrandLegacyTextB(r *mrand.Rand) string {
 	keys := []string{"req", "req", "HardKey", "IFVer", "SSHClientVersion", "Touch2SSH", "IsFirefighter", "TouchlessSudoHosts", "TouchlessSudoTime", "other", "Req", "é", ""}
 	n := r.Intn(6)
 	s := ""
 	for i := 0; i < n; i++ {
-		k := pick(r, keys)
+		k := zvrpick(r, keys)
 		v := ""
 		switch r.Intn(8) {
 		case 0:
 		case 1:
 			v = "="
 		case 2:
-			v = "=" + randCleanUTF8(r, 8) + "@" + randCleanUTF8(r, 8)
+			v = "=" + zvrrandCleanUTF8(r, 8) + "@" + zvrrandCleanUTF8(r, 8)
 		case 3:
-			v = "=" + pick(r, []string{"true", "false", "1", "0", "T", "yes", "TRUE", "t"})
+			v = "=" + zvrpick(r, []string{"true", "false", "1", "0", "T", "yes", "TRUE", "t"})
 		case 4:
-			v = "=" + pick(r, []string{"30", "-5", "+7", "007", "9223372036854775807", "9223372036854775808", "1e3", "0x10", "6", "7"})
+			v = "=" + zvrpick(r, []string{"30", "-5", "+7", "007", "9223372036854775807", "9223372036854775808", "1e3", "0x10", "6", "7"})
 		case 5:
-			v = "=" + randCleanUTF8(r, 6) + "=" + randCleanUTF8(r, 6)
+			v = "=" + zvrrandCleanUTF8(r, 6) + "=" + zvrrandCleanUTF8(r, 6)
 		case 6:
-			v = "=" + pick(r, []string{"a@b@c", "@", "@@", "a@", "@b", "a\tb@c", "\xff@\xfe", "a @b"})
+			v = "=" + zvrpick(r, []string{"a@b@c", "@", "@@", "a@", "@b", "a\tb@c", "\xff@\xfe", "a @b"})
 		default:
-			v = "=" + randVerAB(r)
+			v = "=" + zvrrandVerAB(r)
 		}
-		s += strings.Repeat(" ", r.Intn(3)) + pick(r, []string{"", "", "", "\t", "\n", "\u0085", " "}) + k + v + pick(r, []string{"", "", "", "\r", "\v", " "}) + " "
+		s += strings.Repeat(" ", r.Intn(3)) + zvrpick(r, []string{"", "", "", "\t", "\n", "\u0085", " "}) + k + v + zvrpick(r, []string{"", "", "", "\r", "\v", " "}) + " "
 	}
 	return s
 }
 
-func randDecodeTextB(r *mrand.Rand) string {
-	cmd, _ := randCmdB(r)
+func zvrrandDecodeTextB(r *mrand.Rand) string {
+	cmd, _ := zvrrandCmdB(r)
 	return cmd
 }
 
-func x509PKA(n int) x509.PublicKeyAlgorithm { return x509.PublicKeyAlgorithm(n) }
-func x509SA(n int) x509.SignatureAlgorithm  { return x509.SignatureAlgorithm(n) }
+func zvrx509PKA(n int) x509.PublicKeyAlgorithm { return x509.PublicKeyAlgorithm(n) }
+func zvrx509SA(n int) x509.SignatureAlgorithm  { return x509.SignatureAlgorithm(n) }
 
 // ---------------------------------------------------------------------------------------------
 // driver
 
-type vPlanCase struct {
+type zvrvPlanCase struct {
 	K   string          `json:"k"`
 	C   json.RawMessage `json:"c"`
 	Xok string          `json:"xok"`
 }
-type vReplay struct {
+type zvrvReplay struct {
 	E struct {
 		Op string `json:"op"`
 	} `json:"e"`
 	Info json.RawMessage `json:"info"`
 }
-type vPlan struct {
-	Prop    string      `json:"prop"`
-	Cases   []vPlanCase `json:"cases"`
-	Random  int         `json:"random"`
-	Replays []vReplay   `json:"replays"`
+type zvrvPlan struct {
+	Prop    string         `json:"prop"`
+	Cases   []zvrvPlanCase `json:"cases"`
+	Random  int            `json:"random"`
+	Replays []zvrvReplay   `json:"replays"`
 	Conc    struct {
 		G      int `json:"g"`
 		Rounds int `json:"rounds"`
@@ -1610,7 +1622,7 @@ type vPlan struct {
 	Hist int `json:"hist"`
 }
 
-func mustUn(b []byte, v interface{}) {
+func zvrmustUn(b []byte, v interface{}) {
 	if err := json.Unmarshal(b, v); err != nil {
 		panic(fmt.Sprintf("verif: bad plan: %v: %s", err, string(b)))
 	}
@@ -1625,97 +1637,97 @@ func TestVerifReqParam(t *testing.T) {
 	if err != nil {
 		t.Fatal(err)
 	}
-	var plan vPlan
-	mustUn(pb, &plan)
+	var plan zvrvPlan
+	zvrmustUn(pb, &plan)
 	tr, err := verifh.OpenTrace(outp)
 	if err != nil {
 		t.Fatal(err)
 	}
-	run := &vRun{tr: tr, classes: map[string]int{}, errtexts: map[string]int{}}
-	tr.Emit(vRec{Ev: "reset", Tid: "t0"})
+	run := &zvrvRun{tr: tr, classes: map[string]int{}, errtexts: map[string]int{}}
+	tr.Emit(zvrvRec{Ev: "reset", Tid: "t0"})
 	rnd := verifh.NewRand("reqparam-"+plan.Prop, 0)
 
 	for _, pc := range plan.Cases {
 		switch pc.K {
 		case "c14":
-			var c vCase14
-			mustUn(pc.C, &c)
-			run.do14(concrete14(rnd, c, pc.Xok))
+			var c zvrvCase14
+			zvrmustUn(pc.C, &c)
+			run.do14(zvrconcrete14(rnd, c, pc.Xok))
 		case "rt":
-			var s vSet15
-			mustUn(pc.C, &s)
-			run.doRt(concreteSet(rnd, s), pc.Xok)
+			var s zvrvSet15
+			zvrmustUn(pc.C, &s)
+			run.doRt(zvrconcreteSet(rnd, s), pc.Xok)
 		case "leg":
-			var toks []vLTok
-			mustUn(pc.C, &toks)
-			text := concreteLegacyText(rnd, toks)
+			var toks []zvrvLTok
+			zvrmustUn(pc.C, &toks)
+			text := zvrconcreteLegacyText(rnd, toks)
 			run.doLegacyText(text, pc.Xok, "A:leg")
 			run.doDecode(text, pc.Xok, "A:leg")
 		case "dec":
-			var d vDec15
-			mustUn(pc.C, &d)
-			run.doDecode(concreteDecode(rnd, d), pc.Xok, "A:dec")
+			var d zvrvDec15
+			zvrmustUn(pc.C, &d)
+			run.doDecode(zvrconcreteDecode(rnd, d), pc.Xok, "A:dec")
 		}
 	}
 	for i := 0; i < plan.Random; i++ {
 		if plan.Prop == "C14" {
-			run.do14(randIn14(rnd))
+			run.do14(zvrrandIn14(rnd))
 			continue
 		}
 		switch i % 4 {
 		case 0, 1:
-			run.doRt(randSet(rnd), "na")
+			run.doRt(zvrrandSet(rnd), "na")
 		case 2:
-			text := randLegacyTextB(rnd)
+			text := zvrrandLegacyTextB(rnd)
 			run.doLegacyText(text, "na", "B:leg")
 			run.doDecode(text, "na", "B:leg")
 		default:
-			run.doDecode(randDecodeTextB(rnd), "na", "B:dec")
+			run.doDecode(zvrrandDecodeTextB(rnd), "na", "B:dec")
 		}
 	}
 	for i := 0; i < plan.Hist && plan.Prop == "C15"; i++ {
 		others := make([]*message.Attributes, 1+rnd.Intn(3))
 		for j := range others {
-			others[j] = randSet(rnd)
+			others[j] = zvrrandSet(rnd)
 		}
-		run.doRtHist(randSet(rnd), others)
+		run.doRtHist(zvrrandSet(rnd), others)
 	}
 	var concFirst []*message.Attributes
 	for _, rp := range plan.Replays {
 		switch rp.E.Op {
 		case "reqparam":
-			var in vIn14
-			mustUn(rp.Info, &in)
+			var in zvrvIn14
+			zvrmustUn(rp.Info, &in)
 			run.do14(in)
 		case "tidbatch":
 			var b struct {
-				Calls []vIn14 `json:"calls"`
+				Calls []zvrvIn14 `json:"calls"`
 			}
-			mustUn(rp.Info, &b)
+			zvrmustUn(rp.Info, &b)
 			for _, in := range b.Calls {
 				run.do14(in)
 			}
 		case "rt":
-			var in vInRt
-			mustUn(rp.Info, &in)
+			var in zvrvInRt
+			zvrmustUn(rp.Info, &in)
 			a := &message.Attributes{}
-			mustUn(in.Attrs, a)
+			zvrmustUn(in.Attrs, a)
 			switch in.Mode {
 			case "conc":
 				concFirst = append(concFirst, a)
 			case "hist":
-				run.doRtHist(a, []*message.Attributes{randSet(rnd), randSet(rnd)})
+				run.doRtHist(a, []*message.Attributes{zvrrandSet(rnd), zvrrandSet(rnd)})
 			default:
 				run.doRt(a, in.Xok)
 			}
 		case "declegacy":
-			var in vInText
-			mustUn(rp.Info, &in)
-			run.doLegacyText(unhx(in.Text), in.Xok, in.Cls)
+			var in zvrvInText
+			zvrmustUn(rp.Info, &in)
+			run.doLegacyText(zvrunhx(in.Text), in.Xok, in.Cls)
 		case "decode":
-			var in vInText
-			mustUn(rp.Info, &in)
-			run.doDecode(unhx(in.Text), in.Xok, in.Cls)
+			var in zvrvInText
+			zvrmustUn(rp.Info, &in)
+			run.doDecode(zvrunhx(in.Text), in.Xok, in.Cls)
 		}
 	}
 	if plan.Conc.G > 0 && (len(plan.Replays) == 0 || len(concFirst) > 0) {
